@@ -216,7 +216,8 @@ func decodeKeyCharByEscapedChar(buf []byte, cursor int64) ([]byte, int64, error)
 	case 'u':
 		return decodeKeyCharByUnicodeRune(buf, cursor)
 	}
-	return nil, cursor, nil
+	// not an escape sequence: an error, as in the stream decoder
+	return nil, cursor, errors.ErrUnexpectedEndOfJSON("struct field", cursor)
 }
 
 func decodeKeyByBitmapUint8(d *structDecoder, buf []byte, cursor int64) (int64, *structFieldSet, error) {
